@@ -2,13 +2,14 @@ package main
 
 import (
 	"go/ast"
+	"go/token"
 	"path/filepath"
 
 	"verifharness/retrans"
 )
 
 // translateMore emits the remaining generated files (regexes, audits).
-func translateMore(repo, out string, files map[string]*ast.File) error {
+func translateMore(repo, out string, fset *token.FileSet, files map[string]*ast.File) error {
 	rs, err := retrans.Extract(repo)
 	if err != nil {
 		return err
@@ -20,5 +21,9 @@ func translateMore(repo, out string, files map[string]*ast.File) error {
 	if err := writeIfChanged(filepath.Join(out, "Regexes.v"), []byte(src)); err != nil {
 		return err
 	}
-	return nil
+	au, err := emitAudit(fset, files)
+	if err != nil {
+		return err
+	}
+	return writeIfChanged(filepath.Join(out, "Audit.v"), []byte(au))
 }
